@@ -4,6 +4,7 @@ import (
 	"fmt"
 	"slices"
 	"testing"
+	"time"
 
 	"verif/harness/common"
 )
@@ -83,7 +84,17 @@ func c11Check(w *world) {
 }
 
 func c11Hooks() hooks {
-	return hooks{online: func(w *world) { w.monitorSource(); c11Check(w) }, final: c11Check, bound: cancelBound}
+	return hooks{online: func(w *world) { w.monitorSource(); c11Check(w) }, final: c11Check, bound: cancelBound,
+		preEnd: func(w *world) {
+			if w.c.Mode == "lift" && len(w.c.Fail) > 0 && hasMove(w.c.Script, 'F') {
+				w.drainAll()
+				for i := 0; i < w.c.Cap+len(w.c.Fail)+8 && !w.allClosed(); i++ {
+					time.Sleep(w.tick())
+					w.quiesce()
+				}
+				c07Final(w) // the fail-fast verdicts of C07 apply to the successive sequence as well
+			}
+		}}
 }
 
 func genC11(t *testing.T) {
@@ -156,6 +167,41 @@ func genC11(t *testing.T) {
 						run(&caseT{Stage: "Unfold", Mode: "pure", Cap: cp, N: 1 + k%7, Tick: 1000000, Delay: 900, FSeed: uint64(k), Script: sc, Comment: "slow step"})
 					}
 				}
+			}
+		}
+	}
+	// fail-fast sources: exactly the values before the failure, nothing lost however slow the consumer is;
+	// with nobody reading the error output the stage must still go away after cancel
+	for _, cp := range []int{0, 1, 2, 3} {
+		for pos := 0; pos <= 4; pos++ {
+			k++
+			u := &caseT{Stage: "Unfold", Mode: "lift", Cap: cp, N: 2 + k%5, Tick: 1000000, FSeed: uint64(k)}
+			x := u.N
+			for i := 0; i < pos; i++ {
+				x = u.next(x)
+			}
+			u.Fail = []int{x}
+			for _, sc := range [][]string{
+				append(rep("R0", pos+2), "F0"),                                  // one value at a time: the stage is always ahead of the consumer
+				append([]string{"A1000000"}, append(rep("R0", pos+2), "F0")...), // the buffer is full before anybody reads
+				{"D0!", "F0"},                 // consumers keep up
+				append(rep("R0", pos+2), "X"), // nobody ever reads the error output
+				{"A1000000", "X"},             // nobody reads anything
+			} {
+				c2 := *u
+				c2.Script = sc
+				run(&c2)
+			}
+			e := &caseT{Stage: "Emit", Mode: "lift", Cap: cp, Tick: 1000000, FSeed: uint64(k), Fail: []int{pos}}
+			for _, sc := range [][]string{
+				append(append(rep("A1000000", pos+cp+2), rep("R0", pos+1)...), "F0"),
+				append([]string{"D0!", "F0"}, rep("A1000000", pos+2)...),
+				append(rep("A1000000", pos+2), "X"),
+				append(append([]string{"D0!"}, rep("A1000000", pos+2)...), "X"),
+			} {
+				c2 := *e
+				c2.Script = sc
+				run(&c2)
 			}
 		}
 	}
